@@ -308,8 +308,17 @@ def evictCoreLegacy (ord : List Row) (now : Nat) (c : Cfg) (fs : FS) (inv : List
     let t := deleteFiles c.root fs inv cs
     agePass now c t.1 t.2.1 t.2.2
 
-/-- the order SQLite produces: index on `(LastAccessTime, rowid)` = stable sort of the rowid order -/
-def sortLRU (inv : List Row) : List Row := inv.mergeSort fun a b => decide (a.atime ≤ b.atime)
+/-- insert a row that has a smaller rowid than every row of the (sorted) list: it goes before the
+first row that is not strictly older -/
+def insertLRU (r : Row) : List Row → List Row
+  | [] => [r]
+  | x :: xs => if x.atime < r.atime then x :: insertLRU r xs else r :: x :: xs
+
+/-- the order SQLite produces: index on `(LastAccessTime, rowid)` = stable sort of the rowid order
+(insertion sort, so that the kernel can evaluate it) -/
+def sortLRU : List Row → List Row
+  | [] => []
+  | r :: rs => insertLRU r (sortLRU rs)
 
 def evict (now : Nat) (c : Cfg) (fs : FS) (inv : List Row) : EvictRes :=
   evictCore (sortLRU inv) now c fs inv
